@@ -537,6 +537,12 @@ impl Store {
         batch.insert(&self.idx_context, idx_context_key_from_frame(frame), b"");
         batch.commit()?;
         self.keyspace.persist(fjall::PersistMode::SyncAll)?;
+
+        // An imported context registration must be usable right away, not only after the
+        // next open: the set of contexts is a function of the stored frames.
+        if frame.topic == "xs.context" && frame.context_id == ZERO_CONTEXT {
+            self.contexts.write().unwrap().insert(frame.id);
+        }
         Ok(())
     }
 
